@@ -1365,7 +1365,34 @@ def c07_post(rec, c, r, d):
     literal_roundtrip_post(rec, c, r, d)
     # supporting execution (printer and parser are not modelled): the printed output must re-parse as a non-JSX module
     if rec["oracle"] == "ok" and not r.get("diags") and r.get("panic") is None and r.get("reparse_ok") is False:
-        rec["oracle"] = "FAIL:printed-output-does-not-reparse:" + (r.get("printed") or r.get("print_panic") or "")[:200].replace("\n", " ")
+        key = "printed-output-does-not-reparse"
+        if isinstance(r.get("out"), dict) and _await_in_generated_arrow(r["out"]):
+            # the recorded design-level finding: slot content is moved into a generated (synchronous, non-generator) arrow function
+            key += "/await-or-yield-moved-into-slot-function"
+        rec["oracle"] = "FAIL:" + key + ":" + (r.get("printed") or r.get("print_panic") or "")[:200].replace("\n", " ")
+
+
+def _await_in_generated_arrow(node):
+    """does the output contain an `await` / `yield` directly (not inside a nested function) inside an arrow function the transform generated?"""
+    def has_await(n):
+        if isinstance(n, dict):
+            t = n.get("type")
+            if t in ("AwaitExpression", "YieldExpression"):
+                return True
+            if t in ("ArrowFunctionExpression", "FunctionExpression", "FunctionDeclaration", "ClassMethod", "MethodProperty"):
+                return False
+            return any(has_await(v) for v in n.values())
+        if isinstance(n, list):
+            return any(has_await(v) for v in n)
+        return False
+    if isinstance(node, dict):
+        if node.get("type") == "ArrowFunctionExpression" and (node.get("span") or {}).get("start") == 0 and (node.get("span") or {}).get("end") == 0 \
+                and not node.get("async") and has_await(node.get("body")):
+            return True
+        return any(_await_in_generated_arrow(v) for v in node.values())
+    if isinstance(node, list):
+        return any(_await_in_generated_arrow(v) for v in node)
+    return False
 
 
 PROPS["C07"] = {
@@ -1561,6 +1588,23 @@ def c10_cases(tier, seed):
             b = {"id": "hctx%d" % n, "src": gen.PRELUDE + "\n".join(pre + [stmt] + suf) + "\n", "tsx": False, "opts": o}
             run.append(b)
             pairs.append({"id": "c10h_%d" % n, "mode": "c10:%d:%d" % (npre, npre + len(pre)), "a": a["id"], "b": b["id"]})
+    # state that outlives a JSX TREE: the slot flag of an element depends on which children are locally bound identifiers; every statement of that
+    # kind alone vs. after / between / before other trees that were marked dynamic (or not), with the hints on and off
+    for si, stmt in enumerate(C10_DYN_STMTS):
+        for oi, o in enumerate([{"optimize": True}, {"optimize": True, "enableObjectSlots": False, "mergeProps": False}, {"optimize": False}]):
+            if tier == "quick" and oi == 2 and si % 3:
+                continue
+            a = {"id": "dynalone%d_%d" % (si, oi), "src": gen.PRELUDE + stmt + "\n", "tsx": False, "opts": o}
+            run.append(a)
+            for di, other in enumerate(C10_DYN_OTHER):
+                other2 = re.sub(r"\bdq", "dr", C10_DYN_OTHER[(di * 5 + si + 1) % len(C10_DYN_OTHER)])
+                for pre, suf in ([other], []), ([], [other]), ([other, other2], []), ([other2], [other]):
+                    if tier == "quick" and oi and (di + si + len(pre)) % 3:
+                        continue
+                    n += 1
+                    b = {"id": "dynctx%d" % n, "src": gen.PRELUDE + "\n".join(pre + [stmt] + suf) + "\n", "tsx": False, "opts": o}
+                    run.append(b)
+                    pairs.append({"id": "c10dyn_%d" % n, "mode": "c10:%d:%d" % (npre, npre + len(pre)), "a": a["id"], "b": b["id"]})
     # random: a generated statement alone vs. between generated distractor statements
     prof = dict(GENERAL_PROFILE); prof["n_stmts"] = [(1, 1)]; prof["p_distractor"] = 0
     for i in range(budget(tier, 500, 12000)):
